@@ -159,6 +159,8 @@ BASES = [
     datetime(2023, 12, 31, 23, 0, 0),
     datetime(2023, 6, 1, 0, 0, 0),
     datetime(1999, 12, 31, 21, 3, 9),
+    datetime(1965, 3, 7, 10, 1, 30),   # before the epoch: floor vs truncation differ for negative offsets
+    datetime(1969, 12, 31, 23, 57, 0),
 ]
 
 
@@ -199,3 +201,15 @@ def make_rows(rng, n, family="walk", step=60, ts_mode="regular", tf_s=None, base
 
 def rows_from(pr, ts):
     return [[t.isoformat(), o, h, l, c, v] for t, (o, h, l, c, v) in zip(ts, pr)]
+
+def add_subsecond(rng, rows):
+    """in place: sub-second parts on the timestamps, still non-decreasing"""
+    from datetime import datetime, timedelta
+    prev = None
+    for r in rows:
+        t = datetime.fromisoformat(r[0]) + timedelta(microseconds=rng.choice([0, 1, 250000, 500000, 999999]))
+        if prev is not None and t < prev:
+            t = prev
+        prev = t
+        r[0] = t.isoformat()
+    return rows
